@@ -1987,7 +1987,8 @@ handshake_switch_codec(int dns_fd, int bits)
 
 		send_handshake_query(dns_fd, sw_codec);
 
-		read = handshake_waitdns(dns_fd, in, sizeof(in), 's', 'S', i+1);
+		/* leave room for the terminator added below */
+		read = handshake_waitdns(dns_fd, in, sizeof(in) - 1, 's', 'S', i+1);
 
 		if (read > 0) {
 			if (strncmp("BADLEN", in, 6) == 0) {
@@ -2041,7 +2042,8 @@ handshake_switch_downenc(int dns_fd)
 
 		send_handshake_query(dns_fd, sw_downenc);
 
-		read = handshake_waitdns(dns_fd, in, sizeof(in), 'o', 'O', i+1);
+		/* leave room for the terminator added below */
+		read = handshake_waitdns(dns_fd, in, sizeof(in) - 1, 'o', 'O', i+1);
 
 		if (read > 0) {
 			if (strncmp("BADLEN", in, 6) == 0) {
